@@ -319,16 +319,22 @@ def s_dft_adapter(ctx):
     op = OpRecorder()
     clo = I.closure_of(vc.dft_19_20.__wrapped__ if hasattr(vc.dft_19_20, "__wrapped__") else vc.dft_19_20)
     r = I.run_closure(clo, [node, op], {})
-    if "axis" not in vals:
-        ctx.check("C10.adapter.dft_19_20.no_axis_attribute_needs_no_change", r is None and not op.calls, CL_AD)
-        return
     ok = isinstance(r, tuple) and r[1] == "DFT" and len(op.calls) == 2
+    if "axis" not in vals:
+        # DFT-17/19: attribute axis, DEFAULT 1; DFT-20: input axis, default -2 (operator documentation): a node without the attribute
+        # means axis 1 and must say so once it is declared at opset 20
+        ctx.check("C10.adapter.dft_19_20.an_absent_axis_attribute_becomes_the_input_1_its_old_default", ok and op.calls[0][1] == "Constant"
+                  and dict(op.calls[0][3]).get("value_int") == 1 and r[2][2] is op.calls[0],
+                  CL_AD + " — DFT-17..19: attribute axis with default 1; DFT-20: input axis with default -2")
+        if not ok:
+            return
     ctx.check("C10.adapter.dft_19_20.emits_constant_axis_and_dft", ok, CL_AD)
     if not ok:
         return
     c = op.calls[0]
-    ctx.check("C10.adapter.dft_19_20.axis_attribute_becomes_constant_input",
-              c[1] == "Constant" and dict(c[3]).get("value_int") is vals["axis"] and r[2][2] is c, CL_AD)
+    if "axis" in vals:
+        ctx.check("C10.adapter.dft_19_20.axis_attribute_becomes_constant_input",
+                  c[1] == "Constant" and dict(c[3]).get("value_int") is vals["axis"] and r[2][2] is c, CL_AD)
     ctx.check("C10.adapter.dft_19_20.input_and_dft_length_kept",
               r[2][0] == ("in", 0) and r[2][1] == (("in", 1) if n_in > 1 else None), CL_AD)
     kw = dict(r[3])
